@@ -580,11 +580,13 @@ fn calls(o: &Opts, out: &mut Out, run: &mut u64) {
         let mut tb = TestBuilder::new(o.seed.wrapping_add(k as u64));
         let asset: AssetId = if k % 3 == 0 { AssetId::zeroed() } else { rng.gen() };
         let kind = [0u32, 1, 2, 3, 3, 4, 5, 6, 7, 8, 8][rng.gen_range(0..11)];   // the recursive shapes (3, 8) twice as often
-        let c1 = tb.setup_contract(callee(&mut rng, kind), if k % 4 == 0 { Some((asset, rng.gen_range(0..1000))) } else { None }, None).contract_id;
+        // (the recursive shape forwards coins to itself: it always holds some of the asset)
+        let c1 = tb.setup_contract(callee(&mut rng, kind), if k % 4 == 0 || kind == 3 { Some((asset, rng.gen_range(if kind == 3 { 10 } else { 0 }..1000))) } else { None }, None).contract_id;
         let k2 = rng.gen_range(0..3u32); let c2 = tb.setup_contract(callee(&mut rng, k2), None, None).contract_id;
         let not_input: ContractId = rng.gen();
         let target = match rng.gen_range(0..12) { 0 => not_input, 1 => c2, _ => c1 };
-        let (a, b) = (match kind % 9 { 1 => [0u64, 1, 7, 8, 33, 1000, 70000][rng.gen_range(0..7)], 3 | 8 => rng.gen_range(0..if thorough { 30 } else { 6 }), _ => rng.gen_range(0..100) }, rng.gen::<u64>());
+        let (a, b) = (match kind % 9 { 1 => [0u64, 1, 7, 8, 33, 1000, 70000][rng.gen_range(0..7)], 3 | 8 => rng.gen_range(0..if thorough { 30 } else { 6 }), _ => rng.gen_range(0..100) },
+                      if kind == 3 { (rng.gen::<u64>() & !3) | [1u64, 2, 3, 0][rng.gen_range(0..4)] } else { rng.gen::<u64>() });   // kind 3 forwards b mod 4 coins to itself
         let amount: u64 = match rng.gen_range(0..5) { 0 => 0, 1 => 1, 2 => 500, 3 => 1_000_000, _ => rng.gen_range(0..2000) };
         let fwd: u64 = match rng.gen_range(0..6) { 0 => 0, 1 => rng.gen_range(0..300), 2 => u64::MAX, _ => 1_000_000 };
         let mut data = Call::new(target, a, b).to_bytes();
@@ -614,7 +616,13 @@ fn calls(o: &Opts, out: &mut Out, run: &mut u64) {
         let extra = json!({"driver": "calls", "contracts": contracts_json(&w.storage, &[c1, c2], &[asset, AssetId::zeroed()]),
                            "inputs": [hx(c1), hx(c2)]});
         let mut vm = new_vm(&w);
-        record_run(out, *run, &mut vm, &w, checked, extra, 20_000);
+        // the contracts' balances in storage after the run (C27: model balances = real storage, also for calls)
+        let watch = [asset, AssetId::zeroed()];
+        let post = move |vm: &Vm<MemoryStorage>| -> serde_json::Value {
+            let st: &MemoryStorage = vm.as_ref();
+            json!({"contracts": contracts_json(st, &[c1, c2], &watch)})
+        };
+        record_run_with(out, *run, &mut vm, &w, checked, extra, 20_000, Some(&post));
     }
 }
 
